@@ -305,7 +305,8 @@ def linear_unit(p, item, tier, seed):
     from checks import c08_lin
 
     kind, mode, n, m, be = item
-    probs, stats, wit = c08_lin.conservation(p, kind, mode, n, m, be, block_timeout_ms=600000 if tier == "thorough" else 120000)
+    # DEFAULT compresses with (x, x^y) pairs: its inner blocks are recorded instead of the one weighted-sum call
+    probs, stats, wit = c08_lin.conservation(p, kind, mode, n, m, be, block_timeout_ms=600000 if tier == "thorough" else 120000, deep=(mode == "DEFAULT"))
     p.case(("c08-lin", kind, mode, n, m, be), sample=f"linear conservation {kind} {mode} {n}x{m} big_endian={be}: {stats}")
     for k, v in stats.items():
         p.count(f"lin_{k}", v)
@@ -404,7 +405,7 @@ def run(rep, tier, seed, only=None):
                      "square.add_square (twin for the split) / add_square_pow2_m1", "generate_mul / generate_square"]
     rep.bounds = {"(n,m)": "all pairs with n+m<=8 and widths<=5 + diagonal to 7x7 (quick); all <=8x8 + 9x9 per mode (thorough)",
                   "squares": "n<=14 (quick) / <=20 (thorough)", "twins": f"guards 20->6, 18->4 ({hits[0]} literals), 48->4, [49,53]->[5] ({hits[1]} literals); widths <= 8 (mul), <= 12 (square)"}
-    rep.outside = ["MulMode.DEFAULT / ALTER above the directly decided widths (their compression is not built from the recorded exact-sum blocks: (x, x^y) pair encoding, magnitude-dependent carry drops)",
+    rep.outside = ["MulMode.ALTER above the directly decided widths (it drops carries that are zero only for magnitude reasons, which the integer conservation argument cannot see)",
                    "bit-exact leaf multipliers wider than 9x9 inside the true-width recursion (assumed, see bounds); monolithic true-width equivalence is out of the solver's reach",
                    "widths above the listed ones"]
     rep.rule = "case = (mode, widths, endianness, host kind); operand values quantified by z3 (out == bvmul, product fits)"
@@ -432,15 +433,16 @@ def run(rep, tier, seed, only=None):
         lin = [("mul", "POW2_M1", 25, 25, False), ("mul", "POW2_M1", 32, 32, True), ("mul", "POW2_M1", 40, 24, False), ("mul", "POW2_M1", 7, 33, True),
                ("mul", "WALLACE", 2, 30, False), ("mul", "WALLACE", 2, 44, True), ("mul", "WALLACE", 31, 2, False), ("mul", "WALLACE", 3, 40, False), ("mul", "WALLACE", 24, 24, True),
                ("mul", "WALLACE", 33, 5, False), ("mul", "DADDA", 24, 24, False), ("mul", "DADDA", 2, 40, True), ("mul", "DADDA", 32, 32, False), ("mul", "DADDA", 17, 40, True),
-               ("square", "POW2_M1", 25, 25, False), ("square", "POW2_M1", 32, 32, True), ("square", "POW2_M1", 40, 40, False)]
+               ("square", "POW2_M1", 25, 25, False), ("square", "POW2_M1", 32, 32, True), ("square", "POW2_M1", 40, 40, False),
+               ("mul", "DEFAULT", 12, 12, False), ("mul", "DEFAULT", 24, 24, True), ("mul", "DEFAULT", 32, 32, False), ("mul", "DEFAULT", 3, 40, True), ("mul", "DEFAULT", 33, 9, False)]
         if thorough:
-            lin += [("mul", md, n, n, bool(n % 2)) for md in ("POW2_M1", "DADDA") for n in (16, 20, 26, 31, 33, 48, 63, 64)]
+            lin += [("mul", md, n, n, bool(n % 2)) for md in ("POW2_M1", "DADDA", "DEFAULT") for n in (16, 20, 26, 31, 33, 48, 63, 64)]
             lin += [("mul", "WALLACE", n, n, bool(n % 2)) for n in (16, 20, 26, 31, 33, 40, 48)]
-            lin += [("mul", md, a, b, bool((a + b) % 2)) for md in ("POW2_M1", "DADDA", "WALLACE") for a, b in ((2, 64), (64, 2), (3, 63), (5, 50), (50, 6), (31, 64), (64, 31))]
+            lin += [("mul", md, a, b, bool((a + b) % 2)) for md in ("POW2_M1", "DADDA", "WALLACE", "DEFAULT") for a, b in ((2, 64), (64, 2), (3, 63), (5, 50), (50, 6), (31, 64), (64, 31))]
             lin += [("mul", "WALLACE", 2, b, False) for b in range(9, 64)]
             lin += [("square", "POW2_M1", n, n, bool(n % 2)) for n in (16, 31, 33, 48, 63, 64)]
         rep.pmap(linear_unit, lin)
-        rep.bounds["wide column compression (linear conservation)"] = ("POW2_M1 25x25..40x24, Wallace 2x30..33x5 and 24x24, Dadda 24x24..32x32, squarer POW2_M1 25..40 (quick); up to 64x64 and all 2xk, k<=63 (thorough): "
+        rep.bounds["wide column compression (linear conservation)"] = ("POW2_M1 25x25..40x24, Wallace 2x30..33x5 and 24x24, Dadda 24x24..32x32, DEFAULT 12x12..32x32 (inner MDFA/Stockmeyer blocks with virtual pair bits), squarer POW2_M1 25..40 (quick); up to 64x64 and all 2xk, k<=63 (thorough): "
                                                                         "every summation block exact (bit-vectors over the real gates) + integer conservation of partial products and carries")
         rep.bounds["true-width recursion (compositional)"] = ("Karatsuba 18x18, 20x20, 21x21, 23x17 and squarer 48, 50 (quick); 20..26, 24x15, 14x25, 36, 40, 42x43, squares 51, 56, 64 (thorough): "
                                                               "recombination + wiring + algebra lemma discharged per recursive node; leaf multipliers wider than "
